@@ -161,6 +161,9 @@ func genRedefScenario(r *rng) (*scenario, *filterSpec, *filterSpec) {
 		if !forced && r.chance(1, 3) {
 			sc.Opts = append(sc.Opts, sc.supplyFor(r, c, cur, &vid, true))
 			sc.Opts[len(sc.Opts)-1].Ty = cur.Ty
+			if cur.Ty <= 5 && r.chance(1, 4) {
+				sc.Opts[len(sc.Opts)-1].Vid = 0 // the zero value of its type: supplied all the same
+			}
 		}
 	}
 	if r.chance(1, 3) {
@@ -425,6 +428,10 @@ func genRedef(w *bufio.Writer, r *rng, id int) {
 		vid++
 		ty := concreteFor(r, tyID(v.Type))
 		val, id := mkValue(ty, vid, -1).Interface(), vid
+		if ty <= 9 && vid%3 == 0 {
+			// the zero value of its type is a value like any other (provenance id 0)
+			val, id = mkValue(ty, 0, -1).Interface(), 0
+		}
 		if (ty == tyL0 || ty == tyLU) && vid%2 == 0 {
 			// a nil slice is a value like any other (provenance id 0): the redefined function must pass it on
 			val, id = reflect.Zero(tyOf(ty)).Interface(), 0
@@ -628,6 +635,10 @@ func genConv(w *bufio.Writer, r *rng, id int) {
 	}
 	if r.chance(1, 4) && sc.buildAll() == nil {
 		sc.gensify(r) // some converters come from converter generators
+	}
+	if r.chance(1, 8) {
+		// a filter among the options: no effect on Call or Convert
+		sc.Opts = append(sc.Opts, optSpecC{Kind: "filterjunk", Vid: r.intn(2)})
 	}
 	if r.chance(1, 10) {
 		// a malformed option (a nil Arg, a nil or non-function converter, …): Convert must end as the identity call does
